@@ -2014,5 +2014,129 @@ example : mixedWitness ≠ [] ∧ NonemptyButLast mixedWitness ∧ NoMatlessAfte
 
 end shared
 
+/-! ### load → save → load -/
+
+section reload
+variable {τ α : Type} [DecidableEq τ] (pc : τ → Except Err Corner)
+
+theorem mem_flatTris_aux : ∀ (tris : List (Nat × Nat × Nat)) (i : Nat), i ∈ flatTris tris →
+    ∃ t ∈ tris, i = t.1 ∨ i = t.2.1 ∨ i = t.2.2
+  | [], _, h => by cases h
+  | (a, b, c) :: r, i, h => by
+    simp only [flatTris, List.mem_cons] at h
+    rcases h with rfl | rfl | rfl | h
+    · exact ⟨(i, b, c), by simp, Or.inl rfl⟩
+    · exact ⟨(a, i, c), by simp, Or.inr (Or.inl rfl)⟩
+    · exact ⟨(a, b, i), by simp, Or.inr (Or.inr rfl)⟩
+    · obtain ⟨t, ht, hh⟩ := mem_flatTris_aux r i h
+      exact ⟨t, by simp [ht], hh⟩
+
+/-- every local index of a group's triangles is a valid vertex number -/
+theorem tris_in_range_aux {pv pn : List (V3 α)} {pt : List (V2 α)} {g : Group τ α} (hi : GInv pc pv pn pt g) :
+    ∀ i ∈ flatTris g.tris, i < g.verts.length := by
+  have hvl : g.verts.length = g.toks.length := by simpa using congrArg List.length hi.hv
+  have key : ∀ (tris : List (Nat × Nat × Nat)) (ftoks : List (τ × τ × τ)),
+      tris.map (fun t => (g.toks[t.1]?, g.toks[t.2.1]?, g.toks[t.2.2]?)) = ftoks.map (fun f => (some f.1, some f.2.1, some f.2.2)) →
+      ∀ t ∈ tris, t.1 < g.toks.length ∧ t.2.1 < g.toks.length ∧ t.2.2 < g.toks.length := by
+    intro tris
+    induction tris with
+    | nil => intro _ _ t ht; cases ht
+    | cons t0 ts ih =>
+      intro ftoks h t ht
+      cases ftoks with
+      | nil => simp at h
+      | cons f fs =>
+        simp only [List.map_cons, List.cons.injEq, Prod.mk.injEq] at h
+        obtain ⟨⟨h1, h2, h3⟩, hr⟩ := h
+        rcases List.mem_cons.1 ht with rfl | ht
+        · have lt : ∀ {i : Nat} {x : τ}, g.toks[i]? = some x → i < g.toks.length := by
+            intro i x hx
+            rcases Nat.lt_or_ge i g.toks.length with h | h
+            · exact h
+            · rw [List.getElem?_eq_none h] at hx; cases hx
+          exact ⟨lt h1, lt h2, lt h3⟩
+        · exact ih fs hr t ht
+  intro i hi'
+  obtain ⟨t, ht, hh⟩ := mem_flatTris_aux g.tris i hi'
+  obtain ⟨a, b, c⟩ := key g.tris g.ftoks hi.hf t ht
+  rcases hh with rfl | rfl | rfl <;> omega
+
+/-- what the reader returns is a well-formed mesh for the writer (for a group with at least one face) -/
+theorem readObj_output_wf {ls : List (Line τ α)} {gs : List (Group τ α)} {libs : List String}
+    (h : readObj pc ls = .ok (gs, libs)) (g : Group τ α) (hg : g ∈ gs) (hne : g.tris ≠ [])
+    (hnames : ∀ p ∈ g.mats, matName (some p.1) ≠ "") : WFMesh (toMesh g).2 := by
+  have hi := readObj_corners pc h g hg
+  obtain ⟨_, hm⟩ := (readObj_ranges_sum pc h).1 g hg
+  have hr := tris_in_range_aux pc hi
+  have hvne : g.verts ≠ [] := by
+    intro hv
+    cases ht : g.tris with
+    | nil => exact hne ht
+    | cons t r =>
+      obtain ⟨a, b, c⟩ := t
+      have := hr a (by rw [ht]; simp [flatTris])
+      rw [hv] at this; simp at this
+  refine ⟨?_, ?_, ?_, ?_, ?_, ?_⟩
+  · simp only [toMesh, flatTris_length_aux]; omega
+  · exact ⟨g.verts, by simp [toMesh, optOfList, hvne], by simpa [toMesh] using hr⟩
+  · intro us hus
+    simp only [toMesh, keepIfComplete] at hus
+    split at hus
+    · rename_i hc; cases hus; intro i hi'; rw [hc.2]; exact hr i (by simpa [toMesh] using hi')
+    · cases hus
+  · intro ns hns
+    simp only [toMesh, keepIfComplete] at hns
+    split at hns
+    · rename_i hc; cases hns; intro i hi'; rw [hc.2]; exact hr i (by simpa [toMesh] using hi')
+    · cases hns
+  · simp only [toMesh, flatTris_length_aux]
+    rcases hm with hm | hm
+    · left; simp [hm]
+    · right
+      have : 3 * g.tris.length / 3 = g.tris.length := by omega
+      rw [this, ← hm]; simp [matSum, List.map_map, Function.comp_def]
+  · intro p hp
+    simp only [toMesh, List.mem_map] at hp
+    obtain ⟨q, hq, rfl⟩ := hp
+    exact hnames q hq
+
+theorem nonemptyButLast_of_all_aux : ∀ (ms : List (String × Mesh α)), (∀ p ∈ ms, p.2.idx ≠ []) → NonemptyButLast ms
+  | [], _ => trivial
+  | [_], _ => trivial
+  | p :: q :: r, h => ⟨h p (by simp), nonemptyButLast_of_all_aux (q :: r) (fun x hx => h x (by simp [hx]))⟩
+
+/-- **Load → save → load.**  For every text the reader accepts, if every group it returns has a face and
+    its material names survive blank removal: saving what was read succeeds, the reader accepts the saved
+    lines again, and the second load returns the same scene as the first — one group per group, same
+    names, same triangles in order, same position / texture coordinate / normal on every corner, same
+    material ranges (`RoundTripsCarry`).  With `readObj_corners` (the first load carries what the text
+    says) this is the content half of "load and save loses or invents no face". -/
+theorem obj_reload [DecidableEq α] {ls : List (Line τ α)} {gs : List (Group τ α)} {libs : List String}
+    (h : readObj pc ls = .ok (gs, libs)) (hne : ∀ g ∈ gs, g.tris ≠ [])
+    (hnames : ∀ g ∈ gs, ∀ p ∈ g.mats, matName (some p.1) ≠ "") (matFile : String) :
+    ∃ out gs' libs', writeObj matFile (gs.map toMesh) = .ok out ∧ readObj pcId out = .ok (gs', libs') ∧
+      RoundTripsCarry id none (gs.map toMesh) (gs'.map toMesh) = true := by
+  have hgs : gs ≠ [] := by
+    unfold readObj at h
+    split at h
+    · cases h
+    · simp only [finish, Except.ok.injEq, Prod.mk.injEq] at h
+      intro e; rw [e] at h; simp at h
+  have hwf : ∀ p ∈ gs.map toMesh, WFMesh p.2 := by
+    intro p hp
+    obtain ⟨g, hg, rfl⟩ := List.mem_map.1 hp
+    exact readObj_output_wf pc h g hg (hne g hg) (hnames g hg)
+  have hnb : NonemptyButLast (gs.map toMesh) := by
+    apply nonemptyButLast_of_all_aux
+    intro p hp
+    obtain ⟨g, hg, rfl⟩ := List.mem_map.1 hp
+    intro e
+    have : (flatTris g.tris).length = 0 := by simp only [toMesh] at e; rw [e]; rfl
+    rw [flatTris_length_aux] at this
+    exact hne g hg (List.eq_nil_of_length_eq_zero (by omega))
+  exact obj_roundtrip_carry matFile (gs.map toMesh) (by simpa using hgs) hwf hnb
+
+end reload
+
 end C05
 end PolyVerif
